@@ -518,9 +518,118 @@ func init() {
 		pt := fv.Fn.Signature.Results().At(0).Type().(*types.Pointer)
 		return &Pointer{Obj: e.newObject(pt.Elem(), e.zero(pt.Elem()), "http request")}, false
 	})
-	reg("github.com/aukilabs/hagall-common/http.GetUserTokenFromHTTPRequest", func(e *Exec, fv *FuncV, args []Value, cc *ssa.CallCommon) (Value, bool) {
-		return e.C.Str(""), false
+	carrier := func(name string) interceptFn {
+		return func(e *Exec, fv *FuncV, args []Value, cc *ssa.CallCommon) (Value, bool) {
+			if t, ok := e.ext["carrier."+name].(*Term); ok {
+				return t, false
+			}
+			return e.C.Str(""), false
+		}
+	}
+	reg("github.com/aukilabs/hagall-common/http.tokenFromHeader", carrier("header"))
+	reg("github.com/aukilabs/hagall-common/http.tokenFromQuery", carrier("query"))
+	reg("github.com/aukilabs/hagall-common/http.tokenFromCookie", carrier("cookie"))
+	// access tokens: a deterministic model of golang-jwt (the HMAC/base64/JSON processing is outside the claim).
+	// A token made by GenerateHagallUserAccessToken(appKey, secret, ttl) verifies against a key iff the key equals
+	// that secret and ttl > 0; every other string is malformed.
+	reg("github.com/aukilabs/hagall-common/http.GenerateHagallUserAccessToken", func(e *Exec, fv *FuncV, args []Value, cc *ssa.CallCommon) (Value, bool) {
+		n, _ := e.ext["tok.n"].(int)
+		n++
+		e.ext["tok.n"] = n
+		tok := e.C.Str(fmt.Sprintf("token#%d", n))
+		toks, _ := e.ext["tokens"].(map[*Term][2]*Term)
+		if toks == nil {
+			toks = map[*Term][2]*Term{}
+			e.ext["tokens"] = toks
+		}
+		toks[tok] = [2]*Term{args[1].(*Term), args[2].(*Term)}
+		return TupleV{tok, &IfaceV{}}, false
 	})
+	reg("github.com/golang-jwt/jwt/v4.ParseWithClaims", func(e *Exec, fv *FuncV, args []Value, cc *ssa.CallCommon) (Value, bool) {
+		c := e.C
+		res := fv.Fn.Signature.Results()
+		tokPtr := e.zero(res.At(0).Type())
+		// locate *jwt.ValidationError
+		var vet *types.Pointer
+		if o := fv.Fn.Pkg.Pkg.Scope().Lookup("ValidationError"); o != nil {
+			vet = types.NewPointer(o.Type())
+		}
+		mkErr := func(flags uint64) Value {
+			st := vet.Elem().Underlying().(*types.Struct)
+			v := e.zero(vet.Elem()).(*StructV)
+			for i := 0; i < st.NumFields(); i++ {
+				if st.Field(i).Name() == "Errors" {
+					v.F[i] = c.BVConst(32, flags)
+				}
+				if st.Field(i).Name() == "Inner" {
+					v.F[i] = &IfaceV{Typ: errType(e), Val: &OpaqueV{Tag: "err:token invalid"}}
+				}
+			}
+			obj := e.newObject(vet.Elem(), v, "jwt.ValidationError")
+			return TupleV{tokPtr, &IfaceV{Typ: vet, Val: &Pointer{Obj: obj}}}
+		}
+		tok := args[0].(*Term)
+		toks, _ := e.ext["tokens"].(map[*Term][2]*Term)
+		desc, known := toks[tok]
+		if !known {
+			// decide whether the presented string is one of the generated tokens
+			for t, d := range toks {
+				if e.Branch(c.Eq(tok, t)) {
+					desc, known = d, true
+					break
+				}
+			}
+		}
+		if !known {
+			return mkErr(1), false // ValidationErrorMalformed
+		}
+		kf, _ := args[2].(*FuncV)
+		if kf == nil || (kf.Fn == nil && kf.Builtin == "") {
+			return mkErr(2), false // unverifiable
+		}
+		kr := e.callSync(kf, []Value{tokPtr}).(TupleV)
+		keyIface := kr[0].(*IfaceV)
+		if keyIface.Typ == nil {
+			return mkErr(2), false
+		}
+		keyCode := e.bytesCode(keyIface.Val)
+		if !e.Branch(c.Eq(keyCode, desc[0])) {
+			return mkErr(4), false // ValidationErrorSignatureInvalid
+		}
+		if !e.Branch(c.SLT(c.BVConst(64, 0), desc[1])) {
+			return mkErr(16), false // ValidationErrorExpired
+		}
+		return TupleV{tokPtr, &IfaceV{}}, false
+	})
+	asStub := func(e *Exec, fv *FuncV, args []Value, cc *ssa.CallCommon) (Value, bool) {
+		err := args[0].(*IfaceV)
+		tgt := args[1].(*IfaceV)
+		tp := tgt.Val.(*Pointer)
+		want := tgt.Typ.Underlying().(*types.Pointer).Elem()
+		for cur := err; cur != nil && cur.Typ != nil; {
+			if types.Identical(cur.Typ, want) {
+				e.store(tp, cur.Val)
+				return e.C.True, false
+			}
+			// unwrap go-tooling rich errors
+			if sv, ok := cur.Val.(*StructV); ok {
+				var next *IfaceV
+				if st, ok := cur.Typ.Underlying().(*types.Struct); ok {
+					for i := 0; i < st.NumFields(); i++ {
+						if st.Field(i).Name() == "wrappedErr" {
+							next, _ = sv.F[i].(*IfaceV)
+						}
+					}
+				}
+				cur = next
+				continue
+			}
+			break
+		}
+		return e.C.False, false
+	}
+	reg("github.com/aukilabs/go-tooling/pkg/errors.As", asStub)
+	reg("errors.As", asStub)
 	reg("github.com/aukilabs/hagall-common/http.GetAppKeyFromHagallUserToken", func(e *Exec, fv *FuncV, args []Value, cc *ssa.CallCommon) (Value, bool) {
 		return e.C.Str(""), false
 	})
